@@ -68,8 +68,9 @@ def run(chk):
         if t.unit.src.startswith("bin/rdsquashfs/"):
             continue        # unpack order of rdsquashfs: performance only
         check_comparator(chk, prog, t, li, ri, "K14-cmp", equals=eq)
-    from .c08 import rule_g_truncate
+    from .c08 import rule_g_truncate, rule_i_every_block
     rule_g_truncate(chk, load_program("gensquashfs"))
+    rule_i_every_block(chk, load_program("gensquashfs"))
     chk.floor("K13-truncate", 1)
     chk.floor("K7", 45)
     chk.floor("A1", 150)
